@@ -220,6 +220,11 @@ pub fn regp_set_insert<T: crate::iana::EnumI64 + crate::iana::WithPrivateRange>(
     requires crate::common::wf_regp(k), forall |x: crate::RegisteredLabelWithPrivate<T>| old(s)@.contains(x) ==> crate::common::wf_regp(x),
     ensures final(s)@ == old(s)@.insert(k), r == !old(s)@.contains(k),
 { s.insert(k) }
+/// A-STD: `Vec<u8>: Ord` is lexicographic byte order
+#[verifier::external_body]
+pub fn bytes_cmp(a: &Vec<u8>, b: &Vec<u8>) -> (r: Ordering)
+    ensures r == lex_cmp(a@, b@)
+{ a.cmp(b) }
 #[verifier::external_body]
 pub fn str_ne_string(a: &str, b: &String) -> (r: bool)
     ensures r == (a@ != b@)
